@@ -761,6 +761,76 @@ def dup_worker(payload: Tuple[Any, ...]) -> Dict[str, Any]:
     return rep.part()
 
 
+def midcall_worker(payload: Tuple[Any, ...]) -> Dict[str, Any]:
+    """A data file is replaced (atomically, by a same-sized-table sibling that parses and has the same row count)
+    DURING a read call: after the k-th time the call opened that file, for every k.  With verification on the call
+    must either raise or return exactly the undamaged answer - never rows of the replacement (a file hashed in one
+    pass and decoded in another would return them)."""
+    from dsmc.localfs import _REAL_OPEN
+
+    tier, seed = payload
+    rep = Report(PROP, tier, seed, LEVEL)
+    ctx = Ctx("local", f"midcall-{os.getpid()}")
+    try:
+        data = [rel for rel, cls in ctx.files if cls == "data"]
+        for rel in data:
+            sib = [r for r in data if r != rel and len(reader.read_parquet(ctx.view, r)) == len(reader.read_parquet(ctx.view, rel))]
+            if not sib:
+                continue
+            repl = ctx.orig[sib[0]]
+            target = os.path.join(ctx.root, rel)
+            for api, v in CONFIGS:
+                if v is False or api in ("row_count", "scan_filter"):
+                    continue
+
+                class Swap:
+                    def __init__(self, k: int) -> None:
+                        self.k, self.n = k, 0
+
+                    def before(self, ev: Any) -> None:
+                        pass
+
+                    def after(self, ev: Any, res: Any, exc: Any) -> None:
+                        if exc is None and ev.fn in ("open", "pq_read") and ev.kind == "r" and ev.path == target:
+                            self.n += 1
+                            if self.n == self.k:
+                                tmp = target + ".swap"
+                                with _REAL_OPEN(tmp, "wb") as f:
+                                    f.write(repl)
+                                os.replace(tmp, target)
+
+                probe = Swap(10 ** 9)
+                ENV.hooks.append(probe)
+                try:
+                    call_api(ctx.t, api, v)
+                finally:
+                    ENV.hooks.remove(probe)
+                for k in range(1, probe.n + 1):
+                    sw = Swap(k)
+                    ENV.hooks.append(sw)
+                    try:
+                        try:
+                            out: Any = ("ok", call_api(ctx.t, api, v))
+                        except HarnessError:
+                            raise
+                        except Exception as e:  # noqa
+                            out = ("raise", type(e).__name__)
+                    finally:
+                        ENV.hooks.remove(sw)
+                        ctx.put(rel, ctx.orig[rel])
+                    rep.add("evaluations")
+                    rep.add("file_replaced_during_the_call_cases")
+                    rep.nontrivial(("midcall", rel, api, str(v), k))
+                    if out[0] == "ok" and out[1] != ctx.want[api]:
+                        rep.violation({"backend": "local", "file_class": "data", "damage": "replaced_during_the_call", "api": "all",
+                                       "verify": "on", "problem": "returned_rows_of_the_replacement"},
+                                      {"file": rel, "api": api, "verify": str(v), "replaced_after_open_number": k,
+                                       "opens_in_the_call": probe.n})
+    finally:
+        ctx.close()
+    return rep.part()
+
+
 def run(tier: str, seed: int) -> Report:
     rep = Report(PROP, tier, seed, LEVEL)
     fails: List[Tuple[List[Any], Dict[str, Any]]] = []
@@ -771,6 +841,8 @@ def run(tier: str, seed: int) -> Report:
         rep.violation(key, det)
         rep.violations[json.dumps(key, sort_keys=True)]["count"] = cnt
     for part in pmap("checks.c14", "dup_worker", [(tier, seed, o) for o in ("same", "slash")]):
+        rep.merge(part)
+    for part in pmap("checks.c14", "midcall_worker", [(tier, seed)]):
         rep.merge(part)
     rep.cov["read_api_configurations"] = len(CONFIGS)
     rep.cov["files_reachable_from_current_snapshot"] = 7
@@ -799,7 +871,8 @@ def run(tier: str, seed: int) -> Report:
         "verify_checksums=False: a damaged data file that pyarrow still decodes (to different values) is out of scope "
         "(out_of_scope_unverified_data_decodes_differently)",
         "the exception type is not judged; generators are consumed to the end and must raise before normal exhaustion",
-        "damage is planted between calls on a handle opened before the damage; files are never modified during a call",
+        "damage is planted between calls on a handle opened before the damage; the one in-call change enumerated is the "
+        "atomic replacement of a data file by a sibling after the k-th open of that file (midcall part)",
         "the version pointer (metadata.version-hint.text) is not a file 'reachable from the current snapshot': it is faulted "
         "(E3a) but not damaged here (C10 covers it)",
         "logical content of a manifest = its data-file records; damage that only changes an entry's status / adding snapshot / "
